@@ -522,3 +522,54 @@ Proof.
     + eapply Permutation_in; [apply Permutation_sym, sort_names_perm | exact H].
     + eapply Permutation_in; [apply sort_names_perm | exact H].
 Qed.
+
+(* ------------------------------------------------------------------ the directory listing has no duplicates *)
+
+Lemma in_dedup : forall x l, In x (dedup l) -> In x l.
+Proof.
+  intros x l. induction l as [|y r IH]; [intros []|]. cbn [dedup].
+  destruct (existsb (str_eqb y) r); intro H; [right; apply IH; exact H|].
+  destruct H as [H|H]; [left; exact H | right; apply IH; exact H].
+Qed.
+
+Lemma dedup_nodup : forall l, NoDup (dedup l).
+Proof.
+  induction l as [|y r IH]; [constructor|]. cbn [dedup].
+  destruct (existsb (str_eqb y) r) eqn:E; [exact IH|]. constructor; [|exact IH].
+  intro Hin. apply in_dedup in Hin.
+  assert (existsb (str_eqb y) r = true) by (apply existsb_exists; exists y; split; [exact Hin | apply str_eqb_refl]).
+  congruence.
+Qed.
+
+Lemma ends_with_split : forall s suf, ends_with s suf = true -> s = strip_suffix s suf ++ suf.
+Proof.
+  intros s suf H. unfold ends_with in H. apply starts_with_iff in H as [r Hr].
+  assert (Hs : s = rev r ++ suf).
+  { rewrite <- (rev_involutive s), Hr, rev_app_distr, rev_involutive. reflexivity. }
+  rewrite Hs. f_equal. unfold strip_suffix. rewrite app_length.
+  replace (length (rev r) + length suf - length suf)%nat with (length (rev r)) by lia.
+  rewrite firstn_app, firstn_all, Nat.sub_diag. cbn [firstn]. rewrite app_nil_r. reflexivity.
+Qed.
+
+Lemma NoDup_map_inj_in : forall (A B : Type) (f : A -> B) l,
+  (forall x y, In x l -> In y l -> f x = f y -> x = y) -> NoDup l -> NoDup (map f l).
+Proof.
+  intros A B f l Hinj Hnd. induction Hnd as [|x l Hx Hl IH]; [constructor|]. cbn [map]. constructor.
+  - intro Hin. apply in_map_iff in Hin as [y [Ey Hy]].
+    assert (y = x) by (apply Hinj; [right; exact Hy | left; reflexivity | exact Ey]). subst. contradiction.
+  - apply IH. intros a b Ha Hb. apply Hinj; right; assumption.
+Qed.
+
+Lemma NoDup_filter : forall (A : Type) (f : A -> bool) l, NoDup l -> NoDup (filter f l).
+Proof.
+  intros A f l H. induction H as [|x l Hx Hl IH]; [constructor|]. cbn [filter].
+  destruct (f x); [|exact IH]. constructor; [|exact IH]. intro Hin. apply filter_In in Hin as [Hin _]. contradiction.
+Qed.
+
+Theorem dir_tables_nodup : forall d, NoDup (dir_tables d).
+Proof.
+  intro d. unfold dir_tables. apply NoDup_map_inj_in.
+  - intros x y Hx Hy E. apply filter_In in Hx as [_ Hx]. apply filter_In in Hy as [_ Hy].
+    rewrite (ends_with_split x DOT_LANCE Hx), (ends_with_split y DOT_LANCE Hy), E. reflexivity.
+  - apply NoDup_filter. apply dedup_nodup.
+Qed.
